@@ -209,7 +209,7 @@ theorem gate_ok (s : St) (m : Msg) (h : s.WF) :
        all_goals first | exact h | rfl)
     | skip
 
-theorem storeAvc_ok (s : St) (r : GoM (Bytes × Bytes)) (hr : NoPanic r) : Ok (fun s1 => Same s1 s) (storeAvc s r) := by
+theorem storeAvc_ok (s : St) (r : GoM (Bytes × Bytes)) (hr : NoPanicB r) : Ok (fun s1 => Same s1 s) (storeAvc s r) := by
   unfold storeAvc
   split
   · exact Ok.ok ⟨rfl, rfl⟩
@@ -217,7 +217,7 @@ theorem storeAvc_ok (s : St) (r : GoM (Bytes × Bytes)) (hr : NoPanic r) : Ok (f
   · have := hr.elim rfl
     simp_all
 
-theorem storeHevc_ok (s : St) (enh : Bool) (r : GoM (Bytes × Bytes × Bytes)) (hr : NoPanic r) :
+theorem storeHevc_ok (s : St) (enh : Bool) (r : GoM (Bytes × Bytes × Bytes)) (hr : NoPanicB r) :
     Ok (fun s1 => Same s1 s) (storeHevc s enh r) := by
   unfold storeHevc
   dsimp only
@@ -240,7 +240,7 @@ theorem analyze_ok (env : Env) (s : St) (m : Msg) (h : s.WF) (hl : LenOk m) :
     simp only [h1, GoM.ok_bind]
     exact lift s1 hc.2 (by intro k hk; rw [hc.1] at hk; exact h k hk)
   · split
-    · have hnp : NoPanic (if isEnhancedP m = true then SeqHeader.hevcParseEnhanced m.payload else SeqHeader.hevcParse m.payload) := by
+    · have hnp : NoPanicB (if isEnhancedP m = true then SeqHeader.hevcParseEnhanced m.payload else SeqHeader.hevcParse m.payload) := by
         split
         · exact SeqHeader.hevcParseEnhanced_np _
         · exact SeqHeader.hevcParse_np _
